@@ -1,7 +1,7 @@
 package main
 
-const scenarioBoundsQuick = "scenarios (sum, not product): origin lists {*; a.b; *.a.b:*+a.b; http a.b+[::1]} x 1 Origin value of <=13 symbolic bytes (absent / empty list / 1 / 2 values) x {GET, OPTIONS, preflight}; method lists (3 menus) x ACRM <=6 symbolic bytes; request-header lists (5 menus) x 0-2 ACRH lines of <=5 symbolic bytes; PNA switches x ACRPN <=5 bytes; expose (3) / max-age {0,-1,600} / status symbolic 64-bit; dispatch: method <=7 symbolic bytes x presence kinds of Origin and ACRM; debug symbolic except in the origin scenario (off)"
-const scenarioBoundsThorough = "as quick with: 8 origin menus (incl. IPv4/IPv6 loopback, trailing dot, shared non-label suffix, :* ports), Origin <=17 bytes, debug symbolic everywhere, 5 method menus, 6 request-header menus, 0-3 ACRH lines of <=6 bytes, 5 expose menus, 6 max-age values"
+const scenarioBoundsQuick = "scenarios (sum, not product): origin lists {*; a.b; *.a.b:*+a.b; http a.b+[::1]} x 1 Origin value of <=13 symbolic bytes (absent / empty list / 1 / 2 values) x {GET, OPTIONS, preflight}; method lists (3 menus) x ACRM <=6 symbolic bytes; request-header lists (5 menus: none, *, *+Authorization in both orders and cases, {x-a,B}) x 0-2 ACRH lines of <=5 symbolic bytes; PNA switches x ACRPN <=5 bytes; expose (3) / max-age {0,-1,600} / status symbolic 64-bit; dispatch: method <=7 symbolic bytes x presence kinds of Origin and ACRM; debug symbolic except in the origin scenario (off)"
+const scenarioBoundsThorough = "as quick with: 8 origin menus (incl. IPv4/IPv6 loopback, trailing dot, shared non-label suffix, :* ports), Origin <=17 bytes, debug symbolic everywhere, 5 method menus, 7 request-header menus, 0-3 ACRH lines of <=6 bytes, 5 expose menus, 6 max-age values"
 const scenarioOutside = "configurations outside the menus; request values longer than the bounds; combinations of two symbolic aspects at once (each scenario pins the aspects it does not vary); IDNA/PSL/netip semantics beyond the menu atoms (run natively)"
 
 var checkSpecs = map[string]CheckSpec{
@@ -57,14 +57,14 @@ var checkSpecs = map[string]CheckSpec{
 	"C19": {ID: "C19", Harnesses: []HarnessSpec{
 		{Pkg: "cfgerrors", Entry: "zzH_C19_unit", Reach: []string{"early-exit", "exhausted", "three-leaves"}},
 	}, Bounds: map[string]string{
-		"quick":    "join trees of depth <=2: errors.Join of 1-3 children, each nil / leaf / join of 1-2 (nil / leaf), at most 5 leaves, plus the bare leaf; break position a symbolic 64-bit integer",
-		"thorough": "depth <=3, at most 6 leaves",
+		"quick":    "wide join trees of depth <=2 (errors.Join of 1-3 children, each nil / leaf / join of 1-2 (nil / leaf), at most 5 leaves), deep narrow trees of 4 join levels (each level: one sub-join with an optional nil/leaf sibling on either side; innermost: join of 1-2 nil/leaf), plus the bare leaf; break position a symbolic 64-bit integer",
+		"thorough": "wide trees of depth <=3 with at most 6 leaves; narrow trees of 5 join levels",
 	}, Outside: "deeper or wider trees; a nil top-level error; error types with their own Unwrap() []error other than errors.Join's",
 		Explain: "the yielded sequence (range-over-func form and direct call with an asserting yield function) must be the prefix of the independently recorded left-to-right leaf list cut at the symbolic break position; tree shapes are enumerated by forking, the break position is decided by the solver"},
 	"C02": {ID: "C02", Harnesses: []HarnessSpec{
 		{Pkg: "cors", Entry: "zzH_C02_api", Reach: []string{"method-focus", "header-focus", "origin-focus", "permitted", "refused"}},
 	}, Bounds: map[string]string{
-		"quick":    "three scenarios (sum): method lists (3 menus) x credentialed x a symbolic method token of <=6 bytes x credentials mode; request-header lists (6 menus incl. `*`/Authorization in both orders and cases) x credentialed x every subset of {authorization,x-a,x-b,x-c} x 4 intermediary perturbations x credentials mode x {GET,PUT}; origin lists {*, a.b, *.a.b:*+a.b} x credentialed x both PNA switches x 3 origins x credentials mode x PNA target x {GET,PUT,delete}; both debug modes on every path",
+		"quick":    "three scenarios (sum): method lists (3 menus) x credentialed x a symbolic method token of <=6 bytes x credentials mode; request-header lists (7 menus incl. `*`/Authorization in both orders and cases) x credentialed x every subset of {authorization,x-a,x-b,x-c} x 4 intermediary perturbations x credentials mode x {GET,PUT}; origin lists {*, a.b, *.a.b:*+a.b} x credentialed x both PNA switches x 3 origins x credentials mode x PNA target x {GET,PUT,delete}; both debug modes on every path",
 		"thorough": "5 method menus, 6 perturbations",
 	}, Outside: "header names outside the 4-name universe; methods longer than 6 bytes; configurations outside the menus; browser behaviour outside the transcribed Fetch steps (CORS-preflight fetch step 7, CORS check, extract header list values, method normalisation, non-wildcard request-header names, PNA's Access-Control-Allow-Private-Network check); preflight caching",
 		Explain: "a transcription of the browser's algorithm (zzBrowserVerdict) drives the real middleware with the preflight and the actual request and its verdict is compared with the configuration's documented meaning (zzPermits), in both debug modes"},
